@@ -491,9 +491,10 @@ fn merge_one(m: &mut Merged, job: &Job) {
     }
     if let Some(ex) = v["extra"].as_object() {
         for (k, val) in ex {
+            let is_max = k.starts_with("max_") || k.contains("_max_") || k.ends_with("_alphabet_calls");
             match (m.extra.get(k).and_then(|x| x.as_u64()), val.as_u64()) {
                 (Some(a), Some(b)) => {
-                    m.extra.insert(k.clone(), json!(a + b));
+                    m.extra.insert(k.clone(), json!(if is_max { a.max(b) } else { a + b }));
                 }
                 (None, _) => {
                     m.extra.insert(k.clone(), val.clone());
